@@ -4,9 +4,13 @@ import (
 	"bytes"
 	"errors"
 	"fmt"
+	"io"
 	"testing"
 
+	"github.com/ipld/go-ipld-prime/codec/cbor"
 	"github.com/ipld/go-ipld-prime/codec/dagcbor"
+	"github.com/ipld/go-ipld-prime/datamodel"
+	"github.com/ipld/go-ipld-prime/multicodec"
 	"github.com/ipld/go-ipld-prime/node/basicnode"
 	"pgregory.net/rapid"
 
@@ -24,10 +28,36 @@ type C03Case struct {
 	Note  string `json:"note,omitempty"`
 }
 
-var c03Modes = []string{"strict", "relaxed", "nolinks"}
+// strict / relaxed / nolinks go through dagcbor.DecodeOptions; the remaining modes go through the public
+// entry points a caller or a link system actually uses: the package functions dagcbor.Decode and cbor.Decode
+// and the decoders registered for 0x71 and 0x51 (expected behaviour: strict, resp. strict without links).
+var c03Modes = []string{"strict", "relaxed", "nolinks", "fn-dagcbor", "fn-cbor", "reg-0x71", "reg-0x51"}
+
+func c03NoLinks(mode string) bool { return mode == "nolinks" || mode == "fn-cbor" || mode == "reg-0x51" }
+
+func c03Decoder(mode string) func(datamodel.NodeAssembler, io.Reader) error {
+	switch mode {
+	case "fn-dagcbor":
+		return dagcbor.Decode
+	case "fn-cbor":
+		return cbor.Decode
+	case "reg-0x71", "reg-0x51":
+		code := uint64(0x71)
+		if mode == "reg-0x51" {
+			code = 0x51
+		}
+		d, err := multicodec.LookupDecoder(code)
+		if err != nil {
+			return func(datamodel.NodeAssembler, io.Reader) error { return fmt.Errorf("HARNESS: no decoder registered for 0x%x", code) }
+		}
+		return d
+	}
+	opts := dagcbor.DecodeOptions{AllowLinks: mode != "nolinks", RelaxedDecode: mode == "relaxed"}
+	return opts.Decode
+}
 
 func c03Ref(b []byte, mode string) (val.V, bool, error) {
-	o := refcbor.Opts{CidOK: cidOK, Relaxed: mode == "relaxed", NoLinks: mode == "nolinks"}
+	o := refcbor.Opts{CidOK: cidOK, Relaxed: mode == "relaxed", NoLinks: c03NoLinks(mode)}
 	v, _, dup, err := refcbor.Decode(b, o)
 	return v, dup, err
 }
@@ -35,9 +65,9 @@ func c03Ref(b []byte, mode string) (val.V, bool, error) {
 // c03Eval runs one input and returns the classification (for evidence) or a violation.
 func c03Eval(b []byte, mode string) (class string, nontrivial bool, err error) {
 	want, dup, rerr := c03Ref(b, mode)
-	opts := dagcbor.DecodeOptions{AllowLinks: mode != "nolinks", RelaxedDecode: mode == "relaxed"}
+	decode := c03Decoder(mode)
 	nb := basicnode.Prototype.Any.NewBuilder()
-	derr := evid.Guard("dagcbor.Decode", func() error { return opts.Decode(nb, bytes.NewReader(b)) })
+	derr := evid.Guard("dagcbor.Decode", func() error { return decode(nb, bytes.NewReader(b)) })
 	if derr != nil && len(derr.Error()) >= 5 && derr.Error()[:5] == "PANIC" {
 		return "", false, fmt.Errorf("decoder panicked on %s (%s): %v", clip(b), mode, derr)
 	}
@@ -198,7 +228,7 @@ func TestC03_Exhaustive(t *testing.T) {
 	if evid.Thorough() {
 		maxLen = 3
 	}
-	rec := evid.New("C03", "exhaustive", fmt.Sprintf("every byte string of length 0..%d in strict, relaxed and no-links mode (complete enumeration, sharded by first byte); %s; distinct by construction (counted)", maxLen, c03Rule))
+	rec := evid.New("C03", "exhaustive", fmt.Sprintf("every byte string of length 0..%d in every mode: strict, relaxed, no-links options and the public entry points dagcbor.Decode, cbor.Decode, registry 0x71 / 0x51 (complete enumeration, sharded by first byte); %s; distinct by construction (counted)", maxLen, c03Rule))
 	rec.Exhaustive()
 	defer rec.Flush()
 	rec.Extra("max_len", maxLen)
